@@ -238,6 +238,10 @@ def child_lifecycle(case):
         if f.startswith('plugin') and f[6].isdigit():
             plugins.FAULTS[('Life%s' % f[6], 'shutdown')] = '*'
             plugins.BARE_FAULTS[0] = case['nplug'] % 2 == 0     # half of the lifecycles: failures without a message
+            if len(case['faults']) % 2 == 0:
+                # ... and some fail the way a plugin does that hands in work while delivery is closed, or is cancelled:
+                # with something that is not an Exception subclass
+                plugins.FAULT_CLASS[0] = plugins.PluginCancelled
 
     def pre_sys(frame, event, arg):
         return None
